@@ -798,6 +798,12 @@ class X12ContextReader(object):
             elif seg.get_seg_id() == 'GS':
                 tpath = '/ISA_LOOP/GS_LOOP/GS'
                 self.x12_map_node = self.control_map.getnodebypath(tpath)
+                # The walker is bypassed for GS: work out the loops left and entered
+                loop_node = pop_to_parent_loop(orig_node)
+                while loop_node is not None and loop_node.is_loop() and loop_node.id != 'ISA_LOOP':
+                    pop_loops.append(loop_node)
+                    loop_node = loop_node.parent
+                push_loops = [self.x12_map_node.parent]
             else:
                 try:
                     (seg_node, pop_loops, push_loops) = self.walker.walk(self.x12_map_node,
